@@ -52,6 +52,17 @@ fn at_mut<'a>(e: &'a mut Elem, path: &[usize]) -> &'a mut Elem {
     cur
 }
 
+fn at<'a>(e: &'a Elem, path: &[usize]) -> &'a Elem {
+    let mut cur = e;
+    for i in path {
+        cur = match &cur.kids[*i] {
+            Node::Elem(c) => c,
+            _ => unreachable!(),
+        };
+    }
+    cur
+}
+
 fn remove_doc(s: &Session, di: usize) -> Session {
     let mut c = s.clone();
     c.docs.remove(di);
@@ -198,11 +209,16 @@ pub fn shrink_session(start: &Session, fails: &mut dyn FnMut(&Session) -> bool, 
                 let mut paths = Vec::new();
                 let root = if alt { &cur.alts[di].as_ref().unwrap().root } else { &cur.docs[di].root };
                 elem_paths(root, &mut Vec::new(), &mut paths);
-                'outer: for p in paths.iter() {
+                // very large documents: only the first few thousand positions are tried (the time bound applies anyway)
+                'outer: for p in paths.iter().take(3000) {
+                    if b.start.elapsed().as_secs() >= b.secs {
+                        b.evals = b.max;
+                        break;
+                    }
                     let (nk, na) = {
-                        let mut tmp = cur.clone();
-                        let e = at_mut(&mut doc_mut(&mut tmp, alt, di).root, p);
-                        (e.kids.len(), e.attrs.len())
+                        let root = if alt { &cur.alts[di].as_ref().unwrap().root } else { &cur.docs[di].root };
+                        let e = at(root, p);
+                        (e.kids.len().min(400), e.attrs.len())
                     };
                     for j in (0..nk).rev() {
                         let mut c = cur.clone();
